@@ -716,3 +716,21 @@ def _streams(ctx, R):
 
 
 RULES.append(("C02.STREAMS", "what `run` writes to its first writer reaches the process's standard output, its second the standard error (shared with C01.STREAMS)", _streams))
+
+
+
+
+
+def _clones(ctx, R):
+    from . import p_c01
+    return p_c01.rule_clones(ctx, R)
+
+
+RULES.append(("C02.CLONE", "snapshots and copies are complete: Clone of states, commands, areas and numbers copies every field (shared with C01.CLONE)", _clones))
+
+
+# rules of other properties re-run under this property's name; resolved by rules/main.py once every module can be
+# imported (the owners import this module themselves)
+DEFERRED_BUNDLES = [
+    {'prop': 'C02', 'tag': 'WRITER', 'module': 'p_c11', 'only': ('ONCE',), 'skip': (), 'why': 'the in-memory writer pre-execution captures output with'},
+]
